@@ -76,6 +76,42 @@ func run(c *mon.Case) {
 				}
 			}
 			c.Count("setwidth", 1)
+			// re-width the result again (narrow then widen back, widen then narrow, ...):
+			// the second result must be the first one's value adjusted once more
+			w2 := g.WidthFn(r)
+			if r.Intn(2) == 0 {
+				w2 = e.Width()
+			}
+			var s2 expr.Expr
+			if p, val, stack := mon.Try(func() { s2 = exprtransform.SetWidth(s, w2) }); p {
+				c.Fail("C12.setwidth.panic", nil, "SetWidth(SetWidth(%s, %d), %d) panicked: %v\n%s", clip(src), w, w2, val, stack)
+				break
+			}
+			bad := s2.Width() != w2
+			for i, env := range envs {
+				want := refir.Adjust(refir.Adjust(refir.Eval(e, env), int(w)), int(w2))
+				if got := refir.Eval(s2, env); bad || got.Cmp(want) != 0 {
+					c.Fail("C12.setwidth.value", map[string]string{"when": "applied-twice"}, "env %d: SetWidth(SetWidth(%s, %d), %d) = %s (width %d) evaluates to %x, want %x", i, clip(src), w, w2, clip(refir.String(s2)), s2.Width(), got, want)
+					break
+				}
+			}
+			c.Count("setwidth_twice", 1)
+		}
+		// the same on a bare constant wider than the first target (the shape register and
+		// memory values have)
+		if sub%4 == 0 {
+			k0 := gen.Const(r, gen.SmallWidth(r)+expr.Width(r.Intn(9)))
+			w1, w2 := expr.Width(1+r.Intn(int(k0.Width()))), expr.Width(1+r.Intn(int(k0.Width())+3))
+			var s2 expr.Expr
+			if p, val, stack := mon.Try(func() { s2 = exprtransform.SetWidth(exprtransform.SetWidth(k0, w1), w2) }); p {
+				c.Fail("C12.setwidth.panic", nil, "SetWidth(SetWidth(%s, %d), %d) panicked: %v\n%s", refir.String(k0), w1, w2, val, stack)
+			} else {
+				want := refir.Adjust(refir.Adjust(refir.Eval(k0, envs[0]), int(w1)), int(w2))
+				if got := refir.Eval(s2, envs[0]); s2.Width() != w2 || got.Cmp(want) != 0 {
+					c.Fail("C12.setwidth.value", map[string]string{"when": "constant-twice"}, "SetWidth(SetWidth(%s, %d), %d) = %s evaluates to %x, want %x", refir.String(k0), w1, w2, refir.String(s2), got, want)
+				}
+			}
+			c.Count("setwidth_constant_twice", 1)
 		}
 
 		// --- PurgeWidthGadgets
@@ -120,7 +156,7 @@ func run(c *mon.Case) {
 func main() {
 	mon.Main(mon.Spec{
 		Prop:        "C12",
-		Rule:        "case = random expression tree with raised width-gadget density (chains of 1-3 gadgets of growing/shrinking/mixed widths in every operand position incl. memory load addresses); SetWidth to the same/other widths and PurgeWidthGadgets; non-trivial = tree with >=2 width gadgets, distinct by S-expression",
+		Rule:        "case = random expression tree with raised width-gadget density (chains of 1-3 gadgets of growing/shrinking/mixed widths in every operand position incl. memory load addresses); SetWidth to the same/other widths, SetWidth applied again to its own result (also on bare constants: narrow then widen) and PurgeWidthGadgets; non-trivial = tree with >=2 width gadgets, distinct by S-expression",
 		Explanation: "oracle: SetWidth(e,w) must have width w and value adjust(Eval(e),w); PurgeWidthGadgets(e) must keep width and value; both on 8 valuations by refir big-int evaluation (memory load addresses evaluated at their own width)",
 		Assumptions: []string{"refir reference evaluator"},
 		Cases: func(t string) int {
@@ -135,7 +171,7 @@ func main() {
 			}
 			return 15000
 		},
-		RequiredCounts: []string{"purge_with_gadget_on_load_address", "purge_removed_some", "setwidth"},
+		RequiredCounts: []string{"setwidth_twice", "setwidth_constant_twice", "purge_with_gadget_on_load_address", "purge_removed_some", "setwidth"},
 		Run:            run,
 	})
 }
